@@ -219,6 +219,17 @@ func (m *Message) Finished() bool {
 	return m.finished && m.buffer.Len() == 0
 }
 
+// maxFramePayload is the largest payload put into one frame. On an encrypted
+// stream the AES-GCM tag (16 bytes) and, on a direction's first frame, the IV
+// (16 bytes) are added on the wire, and the receiver bounds the wire length by
+// MaxFrameSize, so a full frame must leave room for them.
+func (m *Message) maxFramePayload() int {
+	if m.stream.IsEncrypted() {
+		return MaxFrameSize - 32
+	}
+	return MaxFrameSize
+}
+
 // FlushFrame sends the current buffer as a frame (for encoding)
 func (m *Message) FlushFrame(ctx context.Context, isEOM bool) error {
 	if m.direction != CodingEncode {
@@ -570,7 +581,7 @@ func (m *Message) PutString(ctx context.Context, s string) error {
 	}
 
 	// For very large strings that exceed MaxFrameSize, handle specially
-	if needed > MaxFrameSize {
+	if needed > m.maxFramePayload() {
 		// Flush current frame if it has data
 		if m.buffer.Len() > 0 {
 			if err := m.FlushFrame(ctx, false); err != nil {
@@ -629,7 +640,7 @@ func (m *Message) PutStringBytes(ctx context.Context, b []byte) error {
 
 	// Large strings: flush, write the (encrypted) length prefix, then stream b and
 	// the null terminator via PutBytes (which splits across frames).
-	if needed > MaxFrameSize {
+	if needed > m.maxFramePayload() {
 		if m.buffer.Len() > 0 {
 			if err := m.FlushFrame(ctx, false); err != nil {
 				return err
@@ -676,7 +687,7 @@ func (m *Message) PutBytes(ctx context.Context, data []byte) error {
 	}
 
 	// If the data is larger than MaxFrameSize, we need to split it
-	if length > MaxFrameSize {
+	if length > m.maxFramePayload() {
 		// Split large data across multiple frames
 		offset := 0
 		for offset < length {
@@ -689,7 +700,7 @@ func (m *Message) PutBytes(ctx context.Context, data []byte) error {
 
 			// Determine how much to write in this frame
 			remaining := length - offset
-			chunkSize := MaxFrameSize
+			chunkSize := m.maxFramePayload()
 			if remaining < chunkSize {
 				chunkSize = remaining
 			}
